@@ -739,7 +739,7 @@ func c08E2ECase(rt *rapid.T, t *testing.T, rec *verifkit.Recorder, thru, dir, ro
 	case "forward":
 		// control: an untouched path must work - otherwise the set-up, not the tool, is at fault
 		if status != 0 {
-			if status == -1 || strings.Contains(jlog, "timeout") || strings.Contains(jlog, "deadline exceeded") {
+			if status == -1 || joinNeverStarted(jlog) || strings.Contains(jlog, "timeout") || strings.Contains(jlog, "deadline exceeded") {
 				rec.Class("control-not-judged-timeout")
 				return true
 			}
